@@ -286,6 +286,12 @@ def closure_entry_facts(crate, can):
             at = can.arg_for_call(("addr", cr, None), {}, True)
             for s in cm.tr_all(L):
                 out.append(("eq",) + tuple(sorted((("len", at), s), key=repr)))
+    # 2b. `cond.then(closure)` runs the closure only when cond is true
+    for ev in pan.events:
+        if ev["k"] == "call" and ev["key"] == "bool::then" and len(ev["args"]) == 2 and ev["args"][1] == agg:
+            from .facts import atoms_of_bool
+            for a in atoms_of_bool(ev["args"][0], True):
+                out.extend(tr_atom(cm, a, cm.eqs))
     # 3. parameter facts from the consumer of the closure
     for ev in pan.events:
         if ev["k"] != "call" or ev["key"] not in MAP_LIKE:
